@@ -220,6 +220,17 @@ def stepOracle (st : St) (ws : List String) (obs : Json) : St × List String :=
   let p9 := rpPreds obs objs fun h => inSync h && !(syncPending obs h)
   ({ st with seen, revokeWait := wait, unsynced }, dedupS (p1 ++ p2 ++ p3 ++ p4 ++ p5 ++ p6 ++ p7 ++ p8 ++ p9))
 
+/-- Which property an oracle predicate belongs to. -/
+def propsOf (pred : String) : List String :=
+  let base := (pred.splitOn "/").headD pred
+  if ["PayloadsExact", "AspasExact", "BgpsecExact", "ObjectsMirror", "ManifestListsExactly", "RpTreeValid",
+      "RpPayloadsExact", "RpAspasExact", "RpRouterKeysExact"].contains base then ["C01"]
+  else if base == "ServerMatchesObjects" then
+    (if pred == "ServerMatchesObjects/reissue-without-sync" then ["C14"] else ["C01", "C03"])
+  else if ["SupersededRevoked", "CrlListsRevocations", "ChangeForcesReissue", "RevokeRequestEffective"].contains base
+    then ["C03"]
+  else ["C14"]
+
 def opTag (ws : List String) : String :=
   match ws with
   | "task" :: n :: _ => s!"task-{n}"
@@ -232,6 +243,7 @@ def step (st : St) (ws : List String) (obs : Json) : St × String :=
   | "config" :: rest => ({ st with cfg := parseCfg rest, prev := obs }, "ok config:set")
   | _ =>
     let (stO, orc) := stepOracle st ws obs
+    let orc := if st.prop.isEmpty then orc else orc.filter fun p => (propsOf p).contains st.prop
     let stO := { stO with prev := obs }
     let orcS := if orc.isEmpty then "" else " ".intercalate orc
     if !st.synced then
@@ -252,8 +264,10 @@ def step (st : St) (ws : List String) (obs : Json) : St × String :=
       else
         ({ stO with cas, synced := false }, s!"FAIL model {" ;; ".intercalate (a.errs.take 6)}")
 
-def main (tolerant : Bool := false) : IO Unit := do
+def main (args : List String) : IO Unit := do
   let stdin ← IO.getStdin
-  jloop stdin ({ tolerant } : St) step { tolerant }
+  let tolerant := args.contains "tolerant"
+  let prop := (args.find? (·.startsWith "C")).getD ""
+  jloop stdin ({ tolerant, prop } : St) step { tolerant, prop }
 
 end KM.Drv.SysObjects
